@@ -2,7 +2,7 @@
 
 modes
   z3vec  <vectors.ndjson> <out.ndjson> <k> <n>   every TLC-generated goal (C06_Bridge universe) whose index is k mod n is built as a
-                                                 real HOL term and given to z3wrapper.solve; goals of the form A --> B are also split
+                                                 real HOL term and given to z3wrapper.solve; every 2nd goal of the form A --> B is also split
                                                  and given to Z3Macro.eval (premises as previous theorems) and, for every 7th vector,
                                                  to the proof checker as a one-step proof
   z3rand <out.ndjson> <n> <seed>                 the goals of the repository's own z3 tests, a deterministic family around the
@@ -11,6 +11,8 @@ modes
   sympy  <out.ndjson> <n> <seed>                 deterministic polynomial identity / non-identity families, n seeded random
                                                  (in)equalities and disequalities over polynomials and rational functions with and
                                                  without an interval-membership premise, and a few transcendental goals (recorded, never judged)
+  mixed  <out_z3> <out_sympy> <nz3> <nsympy> <seed> <stride>   z3rand then sympy in one process (stride: take every stride-th
+                                                 interval of the deterministic SymPy family)
   event  <in.ndjson> <out.ndjson>                re-run recorded events (replay of a finding)
 Events: {tid, key, solver, goal, prems, acc "yes"|"no"|"exc", exc, flag (z3wrapper.check_z3), src}.
 goal / prems are structural projections of the REAL terms given to the bridge (applied form of spec/C06_Sem.tla).
@@ -325,7 +327,7 @@ def split_imp(j):
 
 
 def setup():
-    basic.load_theory("real")
+    basic.load_theory("misc")                     # nat, int, real, set, real intervals
     from prover import z3wrapper, sympywrapper  # noqa: F401
     assert z3wrapper.z3_loaded, "z3 is not installed"
     assert z3wrapper.check_z3 is True, "z3wrapper.check_z3 is not True at start"
@@ -423,7 +425,7 @@ def mode_z3vec(vec_path, out_path, k, n):
             src = "vec:%s:%d" % (v["flv"], v["id"])
             run_z3(out, t, [], src, routes=("solve",))
             prems, concl = split_imp(j)
-            if prems:
+            if prems and v["id"] % 2 == 0:
                 run_z3(out, build(concl), [build(p) for p in prems], src, routes=("macro",))
             if v["id"] % 7 == 0:
                 run_z3(out, t, [], src, routes=("proof",))
@@ -540,6 +542,38 @@ def z3_family():
         Op("equals", "bool", Op("IF", "bool", p, q, Not(q)), Op("equals", "bool", p, q)),
     ]
     gs += ua
+    # xor, the constants true / false (fologic.simplify), interval membership (unfolded by norm_term)
+    T_, F_ = Op("true", "bool"), Op("false", "bool")
+    xn = V("x", "nat")
+    lt0 = Rel("less", xn, N("nat", 0))
+    bl = [
+        Op("equals", "bool", Op("xor", "bool", p, q), Not(Op("equals", "bool", p, q))), Op("xor", "bool", p, p), Op("xor", "bool", p, Not(p)),
+        Op("equals", "bool", Op("xor", "bool", p, q), Op("disj", "bool", p, q)), Op("implies", "bool", Op("xor", "bool", p, q), p),
+        Op("equals", "bool", Op("implies", "bool", p, F_), Not(p)), Op("implies", "bool", F_, p), Op("implies", "bool", p, T_),
+        Op("implies", "bool", T_, p), Op("equals", "bool", Op("conj", "bool", p, T_), p), Op("equals", "bool", Op("disj", "bool", p, F_), p),
+        Op("conj", "bool", p, F_), Op("disj", "bool", p, T_), Op("equals", "bool", p, T_), Op("equals", "bool", p, F_), Not(T_), Not(F_),
+        Op("equals", "bool", lt0, F_), Op("equals", "bool", lt0, T_), Op("equals", "bool", F_, lt0), Op("implies", "bool", lt0, F_),
+        Op("implies", "bool", Not(lt0), F_), Op("disj", "bool", lt0, F_), Op("conj", "bool", Not(lt0), T_), Op("equals", "bool", T_, F_),
+        Q("exists", "z", "nat", T_), Q("all", "z", "nat", F_), Q("exists", "z", "nat", F_), Not(Q("all", "z", "nat", F_)),
+        Q("exists", "z", "'a", T_), Q("all", "z", "'a", Op("implies", "bool", P(B(0, "'a")), T_)),
+    ]
+    gs += bl
+    ivc = lambda lo, hi: Op("real_closed_interval", "(real set)", lo, hi)  # noqa: E731
+    ivo = lambda lo, hi: Op("real_open_interval", "(real set)", lo, hi)  # noqa: E731
+    memr = lambda t, S_: Op("member", "bool", t, S_)  # noqa: E731
+    r0, r1 = N("real", 0), N("real", 1)
+    iv = [
+        Op("implies", "bool", memr(r, ivc(s, r1)), Rel("less_eq", s, r)), Op("implies", "bool", memr(r, ivc(s, r1)), Rel("less", s, r)),
+        Op("implies", "bool", memr(r, ivo(s, r1)), Rel("less", s, r)), Op("implies", "bool", memr(r, ivo(r0, r1)), Rel("less", Op("times", "real", r, r), r)),
+        Op("implies", "bool", memr(r, ivc(r0, r1)), Rel("less", Op("times", "real", r, r), r)),
+        Op("implies", "bool", memr(r, ivc(r0, r1)), Rel("less_eq", Op("times", "real", r, r), r)),
+        memr(r, ivc(r, r)), memr(r, ivo(r, r)), Not(memr(r, ivo(r, r))), Op("implies", "bool", Rel("less_eq", s, r), memr(s, ivc(s, r))),
+        Op("implies", "bool", Rel("less_eq", s, r), memr(s, ivo(s, r))),
+        Q("exists", "z", "real", memr(B(0, "real"), ivc(r0, r1))), Q("exists", "z", "real", memr(B(0, "real"), ivo(r1, r1))),
+        Q("all", "z", "real", Op("implies", "bool", memr(B(0, "real"), ivc(r0, r1)), Rel("less_eq", B(0, "real"), r1))),
+        Q("all", "z", "real", Op("implies", "bool", memr(B(0, "real"), ivc(r0, r1)), Rel("less", B(0, "real"), r1))),
+    ]
+    gs += iv
     return gs
 
 
@@ -626,13 +660,14 @@ class Gen:
         return g
 
 
-def mode_z3rand(out_path, n, seed):
-    setup()
+def mode_z3rand(out_path, n, seed, do_setup=True):
+    if do_setup:
+        setup()
     from syntax import parser
     from logic import context
     out = Out(out_path)
     for vars_, s in REPO_TEST_GOALS:
-        context.set_context("real", vars=vars_)
+        context.set_context("misc", vars=vars_)
         t = parser.parse_term(s)
         run_z3(out, t, [], "repo-test", routes=("solve",))
     for i, j in enumerate(z3_family()):
@@ -711,8 +746,9 @@ def expanded(coefs, x):
     return t
 
 
-def sympy_family():
-    """(goal, prems) pairs: identities and non-identities of polynomials and rational functions"""
+def sympy_family(stride=1):
+    """(goal, prems) pairs: identities and non-identities of polynomials and rational functions
+    (stride: take every stride-th interval)"""
     x, y = V("x", R), V("y", R)
     out = []
 
@@ -759,7 +795,7 @@ def sympy_family():
     # interval goals: quadratic and rational inequalities / disequalities on intervals with grid end points
     ivs = [(-1, 1), (0, 1), (1, 2), (Fraction(1, 2), Fraction(3, 2)), (-2, 0), (0, 2), (-1, 3)]
     polys = [[1, 0, -1], [0, 0, 1], [1, 0, 1], [-1, 1], [0, 1], [2, 0, -1], [0, -1, 1], [-2, 1, 1], [1, -2, 1]]
-    for lo, hi in ivs:
+    for lo, hi in ivs[::stride]:
         for closed in (True, False):
             pr = [mem_interval(x, lo, hi, closed)]
             for cs in polys:
@@ -863,10 +899,11 @@ class SGen:
         return g, prems
 
 
-def mode_sympy(out_path, n, seed):
-    setup()
+def mode_sympy(out_path, n, seed, do_setup=True, stride=1):
+    if do_setup:
+        setup()
     out = Out(out_path)
-    fam = sympy_family()
+    fam = sympy_family(stride)
     for i, (g, ps) in enumerate(fam):
         gt, pts = build(g), [build(p) for p in ps]
         gt.checked_get_type()
@@ -918,6 +955,10 @@ def main(argv):
         mode_z3rand(argv[1], int(argv[2]), int(argv[3]))
     elif mode == "sympy":
         mode_sympy(argv[1], int(argv[2]), int(argv[3]))
+    elif mode == "mixed":                        # one process (one theory load) for both input-independent drivers
+        setup()
+        mode_z3rand(argv[1], int(argv[3]), int(argv[5]), do_setup=False)
+        mode_sympy(argv[2], int(argv[4]), int(argv[5]), do_setup=False, stride=int(argv[6]))
     elif mode == "event":
         mode_event(argv[1], argv[2])
     else:
